@@ -234,10 +234,17 @@ def main():
             # the library's own second-order operators: they work wherever grad-of-grad works, and agree with it
             if "rev-over-rev" in got and z0.size <= 12:
                 from autograd import hessian, hessian_vector_product, make_hvp, hessian_tensor_product
+                p0 = onp.linspace(0.5, 1.5, z0.size).reshape(z0.shape)
+                s_pad = lambda p_, z_: s_ag(z_) + anp.sum(p_ * p_ * p_) * anp.sum(z_)    # noqa: E731  (linear in z_: same Hessian block)
                 for on, th in (("hessian_vector_product", lambda: hessian_vector_product(s_ag)(z0, v)),
                                ("hessian_tensor_product", lambda: hessian_tensor_product(s_ag)(z0, v)),
                                ("make_hvp", lambda: make_hvp(s_ag)(z0)[0](v)),
-                               ("hessian", lambda: onp.dot(hessian(s_ag)(z0), v))):
+                               ("hessian", lambda: onp.dot(hessian(s_ag)(z0), v)),
+                               # ... and for an argument other than the first (the same function behind another parameter)
+                               ("hessian_vector_product argnum=1", lambda: hessian_vector_product(s_pad, 1)(p0, z0, v)),
+                               ("hessian_tensor_product argnum=1", lambda: hessian_tensor_product(s_pad, 1)(p0, z0, v)),
+                               ("make_hvp argnum=1", lambda: make_hvp(s_pad, 1)(p0, z0)[0](v)),
+                               ("hessian argnum=1", lambda: onp.dot(hessian(s_pad, 1)(p0, z0), v))):
                     try:
                         got[on] = onp.asarray(th(), float)
                         dist("%s:%s:computed" % (sname, on))
